@@ -109,6 +109,30 @@ CLAIMS = {
          "DESIGN.md section 3, C20"),
 }
 
+# dimensions added after independently seeded changes were missed (see seeded/README.md); appended to the level text
+ADDENDA = {
+ "C01": "Also: raw blob packages whose buffer the caller overwrites right after queueing; messages whose flush is attempted with a cancelled context.",
+ "C02": "Also: extra header status bits, io.EOF arriving with the last read, a request completing while the response is already arriving, and 2..3 connections of one process receiving at the same time with their header fragments interleaved by a generated schedule.",
+ "C03": "Also: requests completing late, extra status bits, and the rest of a response arriving while a polling (wait=false) or waiting consumer is already underway in its own goroutine.",
+ "C04": "Also: the package leg (values inside PARAMS/ROW behind a decoded format, further rows through the same package object), arbitrary instants of the day, values printed between the steps (what package logging does) and sent twice.",
+ "C05": "Also: decoded instants compared at 1 ms with the exact tick value, a sweep of tick values on the wire, and sequences of 2..6 conversions whose earlier results must stay right after the later ones (no shared storage).",
+ "C06": "Also: EED messages with a trailing newline, every Encrypt id 1..40 in the login record.",
+ "C07": "Also: a used channel (completed response before), the environment hook count over re-parses, and a request completing between the truncated attempt and the complete bytes.",
+ "C08": "Also: one all-zero capability mask type, whitespace keys, packet sizes >= 32768, nonces at the OAEP capacity, package queues of size 0/1/2/5 (the reader has to wait for Login).",
+ "C09": "Also: pairwise distinct ciphertexts for equal secrets, 2..8 logins running concurrently, and 2..3 logins over ONE connection (retry after a rejected login): session key and ciphertexts fresh per login.",
+ "C10": "Also: packet size lowered mid-response, hostile key parameters in the login negotiation, formats with BLOB columns followed by blob rows whose data sets announce up to 2^26 bytes (allocation measured for every case).",
+ "C11": "Also: callback errors wrapping io.EOF or a foreign *EEDError, the error's message list compared exactly (nothing foreign, nothing twice), a consumer polling with wait=false while the packets arrive.",
+ "C12": "Also: packets for closed channels, more than 256 packets on a channel, a channel whose consumer is behind while another channel is closed, channels created after closes (late packets for closed ids reach nobody, ids distinct over the connection's history).",
+ "C13": "Also: header-only control packets in a full queue, Close with a cancelled parent context while a send is parked, 2..3 overlapping Close calls (Channel.Close during Conn.Close), and what a consumer woken by Close is told.",
+ "C14": "Also: three further receive calls after the failure, a consumer polling with wait=false after the prefix, and a request whose 1st..3rd write fails before the response arrives.",
+ "C15": "Also: a failed read hands back only bytes of the stream (never more than available, never bytes nobody wrote).",
+ "C16": "Also: String() after Precision/Scale were changed, integer parts too wide for the precision.",
+ "C17": "Also: boundary strings for booleans and integers ('0', 'true', ...).",
+ "C18": "Also: released names forgotten by their holders and collected (finalizers get to run), formats with prefixes of 120..1000 bytes.",
+ "C19": "Also: capability descriptions (equal / empty), the same range under two comparers in one process, numeric pre-release identifiers of different digit counts (rc.2 < rc.10).",
+ "C20": "Also: answers of the very first calls of the process, 16/32 processes, every ASE level value -70000..70000 and around 2^16..2^62 (the two directions must be consistent).",
+}
+
 NOT_YET = "check not built yet in this round (planned, see DESIGN.md section 3)"
 
 def hook_commits():
@@ -124,6 +148,8 @@ def main():
         if pid not in CLAIMS:
             continue
         level, tech, text, note, ref = CLAIMS[pid]
+        if pid in ADDENDA:
+            text = text + " " + ADDENDA[pid]
         checks.append({
             "property_id": pid,
             "quick_cmd": "python3 vcheck.py %s --tier quick" % pid,
